@@ -239,6 +239,13 @@ func (h *gatedHarness) exec(line string) string {
 	h.st.Ops++
 	h.emits = nil
 	ctx := context.Background()
+	if h.st.Ops%3 == 0 {
+		// every third call gets a context that is already done: the filter's bookkeeping (what is gated, what
+		// expires, what FlushAll / Close empty) does not depend on it (the Sender here ignores the context)
+		c2, cancel := context.WithCancel(ctx)
+		cancel()
+		ctx = c2
+	}
 	switch f[0] {
 	case "reset":
 		h.reset(f[1] == "1", atoi(f[2]))
